@@ -31,12 +31,14 @@ type CutPlan struct {
 	After   int64
 	Reset   bool // RST both sides, otherwise half-close towards the receiver then close
 	Applied atomic.Int32
+	Off     atomic.Bool // disarmed: connections that still carry the plan are no longer cut
 }
 
 type pconn struct {
 	c, s   net.Conn
 	up, dn atomic.Int64
 	closed atomic.Bool
+	doomed atomic.Bool // a cut has been decided for this connection
 }
 
 func (p *pconn) kill(reset bool) {
@@ -120,9 +122,10 @@ func (p *Proxy) pipe(pc *pconn, src, dst net.Conn, up bool, plan *CutPlan) {
 		if n > 0 {
 			chunk := buf[:n]
 			cut := false
-			if plan != nil && plan.Up == up && total+int64(n) >= plan.After {
+			if plan != nil && !plan.Off.Load() && plan.Up == up && total+int64(n) >= plan.After {
 				chunk = chunk[:plan.After-total]
 				cut = true
+				pc.doomed.Store(true)
 			}
 			if len(chunk) > 0 {
 				if _, werr := dst.Write(chunk); werr != nil {
@@ -167,13 +170,23 @@ func (p *Proxy) pipe(pc *pconn, src, dst net.Conn, up bool, plan *CutPlan) {
 }
 
 // SetPlan installs the cut plan for subsequently accepted connections (nil = none).
-func (p *Proxy) SetPlan(plan *CutPlan) { p.plan.Store(plan) }
+func (p *Proxy) SetPlan(plan *CutPlan) {
+	if old := p.plan.Swap(plan); old != nil && old != plan {
+		old.Off.Store(true) // "the server is reachable again": established connections are safe too
+	}
+}
 
 // Open returns the number of currently forwarded connections.
 func (p *Proxy) Open() int {
 	p.mu.Lock()
 	defer p.mu.Unlock()
-	return len(p.conns)
+	n := 0
+	for c := range p.conns {
+		if !c.doomed.Load() && !c.closed.Load() {
+			n++
+		}
+	}
+	return n
 }
 
 // Outage makes the server unreachable: new connections are reset and established ones are killed.
